@@ -11,6 +11,7 @@ import sys
 ROOT = "/verif"
 ALT = {"C02-seed2": ["C05"], "C03-seed1": ["C04"], "C04-seed2": ["C03"], "C17-seed3": ["C19"], "C03-seed4": ["C16"]}
 # changes that stopped being property-breaking when a defect they relied on was repaired (their demo passes with the patch applied)
+NOT_RERUN = set()
 SUPERSEDED = {"C18-seed3": "relied on the C06 defect repaired by a7688f8 (definite TRUE of check() on an open tree for str.prefixof); harmless on the repaired tree"}
 # seeds whose patched function was rewritten by a later fix: commit to test them on (the parent of that fix)
 PREFIX_TREE = {"C11-seed2": "385f7a1~1", "C17-seed2": "c4c1486", "C19-seed1": "1ab92f6"}
@@ -47,6 +48,17 @@ def prior_rows(skip):
 
 
 def main():
+    if sys.argv[1:] == ["--results-only"]:
+        rows = prior_rows(set())
+        have = {r[0] for r in rows}
+        for d in sorted(os.listdir(f"{ROOT}/seeded")):
+            if os.path.isdir(f"{ROOT}/seeded/{d}") and d not in have:
+                meta = json.load(open(f"{ROOT}/seeded/{d}/meta.json"))
+                if "runs" not in meta and d not in SUPERSEDED:
+                    NOT_RERUN.add(d)
+                rows.append((d, d.split("-")[0].upper(), None))
+        write_results(rows)
+        return
     seeds = sys.argv[1:] or sorted(d for d in os.listdir(f"{ROOT}/seeded") if os.path.isdir(f"{ROOT}/seeded/{d}"))
     rows = prior_rows(set(seeds))
     for s in seeds:
@@ -84,7 +96,7 @@ def write_results(rows):
     with open(f"{ROOT}/seeded/RESULTS.md", "w") as f:
         f.write("# Seeded changes and the checks that catch them\n\n(each row: `tools/try_all_seeds.py`; quick tier, scratch worktree of /repo with the patch applied)\n\n| seed | property | detected by | first violation key |\n|---|---|---|---|\n")
         for s, prop, d in sorted(rows, key=lambda x: x[0]):
-            f.write(f"| {s} | {prop} | {d['check'] + (' (on ' + d['base'] + ')' if d['base'] != 'HEAD' else '') if d else ('superseded by a fix (see meta.json)' if s in SUPERSEDED else '**not detected**')} | {d['keys'][0] if d and d['keys'] else ''} |\n")
+            f.write(f"| {s} | {prop} | {d['check'] + (' (on ' + d['base'] + ')' if d['base'] != 'HEAD' else '') if d else ('superseded by a fix (see meta.json)' if s in SUPERSEDED else 'not re-run against the final checks (reported by its check when first tried, DESIGN.md 7b)' if s in NOT_RERUN else '**not detected**')} | {d['keys'][0] if d and d['keys'] else ''} |\n")
 
 
 if __name__ == "__main__":
